@@ -396,11 +396,58 @@ def run(ctx):
                                 "(the token tree is built from the stored nodes)")
     store.store_rule(rst, world)
     rst.require(30, "container functions")
+    kind_rule(ctx)
     skip_tokens_rule(ctx)
     ctx.assume("equality with pest's tree on inputs and span values are not decided; this decides which nodes contribute tokens and in what order")
     ctx.explanation = ("Every impl of Pairs and Pair in pest_typed and in the macro fixture is walked (typed HIR, calls resolved): the ordered "
                        "list of forwarded places is compared with the child-bearing fields of the type in declaration order; look-ahead types "
                        "(classified by their effect trees, not by name) must forward nothing; rule structs emit themselves or forward content.")
+
+
+def kind_rule(ctx):
+    """What the *generated* rule structs contribute, per rule kind, for both generator back-ends (seed C02-7: the raw back-end's
+    kind table gave silent rules Emission::Both)."""
+    from .. import tt
+    r = ctx.rule("R02-KIND", "derive output, every rule kind under both generators (fx_kinds2: optimizer on, fx_kinds2r: pest_optimizer = false): "
+                             "a silent rule forwards its content and has no Pair impl; every other rule emits exactly itself; atomic and "
+                             "compound-atomic rules report no children, normal and non-atomic ones their content")
+    units = ["fx_kinds2", "fx_kinds2r"] + (["fx_kinds3", "fx_kinds3r"] if ctx.tier == "thorough" else [])
+    for unit in units:
+        try:
+            fxc = facts.load(unit)[unit]
+        except facts.BuildFailed as ex:
+            r.violate(unit, "fixture does not build: %s" % str(ex)[:200])
+            continue
+        ex = tt.load_expect(unit)
+        for mod, info in sorted(ex["modules"].items()):
+            fx = tt.Fixture(fxc, unit + "::" + mod)
+            for rname, kind in sorted(info["rules"].items()):
+                key = "%s:%s::%s (%s)" % ("raw" if unit.endswith("r") else "opt", mod, rname, kind)
+                ps = fx.impl_item(PAIRS, rname)
+                pr = fx.impl_item(PAIR, rname)
+                loc = fxc.loc(fx.rules[rname].get("sp")) if rname in fx.rules else None
+                if ps is None:
+                    r.violate(key, "no Pairs impl for the generated rule struct", loc)
+                    continue
+                acts = Fwd(fxc, fxc.body(nodes.Impl(fxc, ps).methods["for_self_or_each_child"])).acts
+                bad = None
+                if kind == "S":
+                    if acts != [("fwd", "self.content")]:
+                        bad = "a silent rule contributes %s, expected its content's tokens only" % acts
+                    elif pr is not None:
+                        bad = "a silent rule has a Pair impl (it would be a token of its own)"
+                else:
+                    if acts != [("emit", "as_token(self)")]:
+                        bad = "a %s rule contributes %s, expected exactly itself" % (kind, acts)
+                    elif pr is None:
+                        bad = "a non-silent rule has no Pair impl"
+                    else:
+                        ch = Fwd(fxc, fxc.body(nodes.Impl(fxc, pr).methods["for_each_child"])).acts
+                        want = [] if kind in ("A", "C") else [("fwd", "self.content")]
+                        if ch != want:
+                            bad = "children of a %s rule are %s, expected %s" % (kind, ch, want)
+                (r.violate(key, bad, loc) if bad else r.inst(key, loc, "ok", {"kind": kind}))
+    r.require(200, "generated rule structs")
 
 
 def skip_tokens_rule(ctx):
